@@ -1112,10 +1112,15 @@ class ConfigInformation:
             return [ConfigInformation._outputjsonvalue(el, context) for el in value]
 
         elif isinstance(value, dict):
-            return {
+            serialized = {
                 name: ConfigInformation._outputjsonvalue(el, context)
                 for name, el in value.items()
             }
+            if "type" in serialized:
+                # A plain dictionary with a "type" key would be read back as
+                # a typed value
+                return {"type": "dict", "value": serialized}
+            return serialized
 
         elif isinstance(value, Path):
             return {"type": "path", "value": str(value)}
@@ -1341,6 +1346,13 @@ class ConfigInformation:
                         key, objects
                     ): ConfigInformation._objectFromParameters(value, objects)
                     for key, value in value.items()
+                }
+
+            # A plain dictionary (that had a "type" key)
+            if value["type"] == "dict":
+                return {
+                    key: ConfigInformation._objectFromParameters(value, objects)
+                    for key, value in value["value"].items()
                 }
 
             # The value is an object (that has been serialized first)
